@@ -388,6 +388,37 @@ static void table_decode(const char *kind, const std::vector<unsigned> &freq, co
     }
   }
   fprintf(out, "{\"e\":\"TDecSum\",\"id\":%d,\"n\":%zu,\"wrong\":%zu,\"first\":%ld,\"tablebytes\":%zu}\n", id, strs.size(), wrong, firstwrong, (size_t)table->getSize());
+  // the same through a saved and re-loaded table ("all of this survives save / load")
+  {
+    std::stringstream ss(std::ios::in | std::ios::out | std::ios::binary);
+    table->save(ss);
+    DecodingTable *t2 = DecodingTable::load(ss);
+    size_t wrong2 = 0;
+    long first2 = -1;
+    for (size_t k = 0; k < strs.size(); k++) {
+      std::fill(o.begin(), o.end(), 0xAA);
+      ChunkScan chunk = {0, 0, (uchar *)encoded[k].data(), (uint)encoded[k].size(), o.data(), 0, 0, 1};
+      uint guard = 0;
+      bool ended = false;
+      while (guard++ < 4 * maxlength + 8 && chunk.strLen < 4 * maxlength) {
+        if (t2->processChunk(&chunk)) {
+          ended = true;
+          break;
+        }
+      }
+      bool ok = ended && chunk.strLen == strs[k].size() + 1 && memcmp(o.data(), strs[k].c_str(), strs[k].size() + 1) == 0;
+      if (!ok) {
+        if (wrong2 < 20) {
+          size_t ol = std::min<size_t>(chunk.strLen, strs[k].size() + 8);
+          fprintf(out, "{\"e\":\"TDec\",\"id\":%d,\"k\":%zu,\"when\":\"loaded\",\"s\":%s,\"out\":%s,\"ended\":%d}\n", id, k,
+                  arr((const uchar *)strs[k].c_str(), strs[k].size() + 1).c_str(), arr(o.data(), ol).c_str(), ended ? 1 : 0);
+        }
+        wrong2++;
+        if (first2 < 0) first2 = (long)k;
+      }
+    }
+    fprintf(out, "{\"e\":\"TDecSum\",\"id\":%d,\"when\":\"loaded\",\"n\":%zu,\"wrong\":%zu,\"first\":%ld,\"tablebytes\":%zu}\n", id, strs.size(), wrong2, first2, (size_t)t2->getSize());
+  }
   delete builder;
   delete coder;
 }
@@ -458,6 +489,24 @@ static void do_tabledec() {
     std::sort(w.begin(), w.end());
     w.erase(std::unique(w.begin(), w.end()), w.end());
     both(f, w, "geometric");
+  }
+  // 2b. one byte with a 1-bit codeword and one with a 2-bit codeword: a chunk of fourteen 1-bit symbols and one 2-bit
+  //     symbol is the table entry "15 symbols in 16 bits" (info byte 0xFF, the last entry of the entry table)
+  {
+    std::vector<unsigned> f(256, 1);
+    f['a'] = 1u << 20;
+    f['b'] = 1u << 18;
+    f[0] = 1u << 16;
+    std::vector<std::string> w;
+    for (int n = 1; n <= 40; n++) {
+      w.push_back(std::string(n, 'a'));
+      w.push_back(std::string(n, 'a') + "b");
+      w.push_back(std::string(n, 'a') + "ba");
+      w.push_back("b" + std::string(n, 'a'));
+    }
+    std::sort(w.begin(), w.end());
+    w.erase(std::unique(w.begin(), w.end()), w.end());
+    both(f, w, "dominant");
   }
   // 3. random corpora, code from the corpus' own symbol counts
   for (int t = 0; t < (thorough ? 30 : 6); t++) {
